@@ -144,6 +144,10 @@ func (f *mverify) Exec(r *hx.Run, op []string) string {
 		}
 		res := inclErr(err)
 		r.Hist("vincl." + res)
+		if err == nil && len(proof) != refPathLen(int(i), int(n)) {
+			r.Viol(fmt.Sprintf("C07:inclusion-accepts-wrong-length:i=%d:n=%d:len=%d", i, n, len(proof)),
+				fmt.Sprintf("VerifyLeafHashInclusion accepted a proof of %d hashes for leaf %d of a %d-leaf tree; the audit path has %d", len(proof), i, n, refPathLen(int(i), int(n))))
+		}
 		if err == nil {
 			// soundness oracle: the root is the true root of the first n committed leaves => leaf i is lh
 			for _, c := range [][]common.Uint256{f.ah, f.bh} {
@@ -166,6 +170,10 @@ func (f *mverify) Exec(r *hx.Run, op []string) string {
 		err := v.VerifyConsistency(uint32(m), uint32(n), r1, r2, proof)
 		res := consErr(err)
 		r.Hist("vcons." + res)
+		if err == nil && m >= 1 && r1 != r2 && len(proof) != refProofLen(int(m), int(n), true) {
+			r.Viol(fmt.Sprintf("C07:consistency-accepts-wrong-length:m=%d:n=%d:len=%d", m, n, len(proof)),
+				fmt.Sprintf("VerifyConsistency accepted a proof of %d hashes between sizes %d and %d (different roots); the RFC 6962 proof has %d", len(proof), m, n, refProofLen(int(m), int(n), true)))
+		}
 		if err == nil {
 			// soundness oracle over every pair of committed lists whose true roots are the claimed ones
 			lists := [][]common.Uint256{f.ah, f.bh}
